@@ -28,6 +28,7 @@ func init() {
 		NotCovered: "liveness of Close under handlers that never return, the behaviour of user Handlers/Preempters/Binders, and fairness of goroutine scheduling.",
 		Run:        runC39,
 		Controls: []Control{
+			{Name: "handler-slot-released-separately", File: "x/jsonrpc2/conn.go", Old: "\t\t\t} else {\n\t\t\t\ts.handlerRunning = false\n\t\t\t}\n\t\t})\n", New: "\t\t\t}\n\t\t})\n\t\tif req == nil {\n\t\t\tc.updateInFlight(func(s *inFlightState) {\n\t\t\t\ts.handlerRunning = false\n\t\t\t})\n\t\t}\n", Expect: "handler-slot/Connection.handleAsync:handlerRunning=false"},
 			{Name: "state-outside-cs", File: f, Old: "\tif req == nil {\n\t\treturn c.internalErrorf(\"Request not found for ID %v\", id)\n\t}", New: "\tif req == nil {\n\t\treq = c.state.incomingByID[id]\n\t}\n\tif req == nil {\n\t\treturn c.internalErrorf(\"Request not found for ID %v\", id)\n\t}", Expect: "guarded-by/Connection.Respond"},
 			{Name: "split-check-from-register", File: f, Old: "\tc.updateInFlight(func(s *inFlightState) {\n\t\terr = s.shuttingDown(ErrClientClosing)\n\t\tif err != nil {\n\t\t\treturn\n\t\t}\n\t\tif s.outgoingCalls == nil {", New: "\tc.updateInFlight(func(s *inFlightState) {\n\t\terr = s.shuttingDown(ErrClientClosing)\n\t})\n\tif err != nil {\n\t\tac.retire(&Response{ID: id, Error: err})\n\t\treturn ac\n\t}\n\tc.updateInFlight(func(s *inFlightState) {\n\t\tif s.outgoingCalls == nil {", Expect: "check-then-act/Connection.Call:register-outgoing"},
 			{Name: "retire-without-delete", File: f, Old: "\t\t\t\t\tdelete(s.outgoingCalls, msg.ID)\n\t\t\t\t\tac.retire(msg)", New: "\t\t\t\t\tac.retire(msg)", Expect: "retire-pairing/Connection.readIncoming"},
@@ -426,6 +427,7 @@ func runC39(c *core.Check) {
 		return
 	}
 	deadStateRule(c, pk) // no unexported field is read without a writer (a cache flag never set, a saved value never saved)
+	c39HandlerSlot(c, pk)
 	c.Trust("golang.org/x/tools@v0.29.0 go/cfg", "sync.Mutex semantics")
 	a := &c39{c: c, pk: pk, info: pk.TypesInfo, fld: map[string]*types.Var{}}
 	a.state = prog.NamedType("./x/jsonrpc2", "inFlightState")
@@ -1196,4 +1198,54 @@ func (a *c39) builtFrom(fd *ast.FuncDecl, recv, o types.Object) bool {
 		return true
 	})
 	return found
+}
+
+// c39HandlerSlot: the handler goroutine gives up its slot (handlerRunning = false) in the SAME critical section in which
+// it found the queue empty, and acceptRequest takes the slot (handlerRunning = true) in the same critical section in
+// which it tested it and enqueued the request. If the release were a separate critical section, a request enqueued
+// between "queue is empty" and "slot released" would see the slot taken, start no goroutine, and never be answered.
+func c39HandlerSlot(c *core.Check, pk *packages.Package) {
+	info := pk.TypesInfo
+	n := 0
+	for _, fd := range core.AllFuncDecls(pk) {
+		if fd.Body == nil {
+			continue
+		}
+		ast.Inspect(fd.Body, func(nd ast.Node) bool {
+			lit, ok := nd.(*ast.FuncLit)
+			if !ok {
+				return true
+			}
+			var assigns []*ast.AssignStmt
+			ast.Inspect(lit.Body, func(m ast.Node) bool {
+				if as, ok := m.(*ast.AssignStmt); ok && len(as.Lhs) == 1 {
+					if sel, ok := as.Lhs[0].(*ast.SelectorExpr); ok && sel.Sel.Name == "handlerRunning" {
+						assigns = append(assigns, as)
+					}
+				}
+				return true
+			})
+			if len(assigns) == 0 {
+				return true
+			}
+			touchesQueue := false
+			ast.Inspect(lit.Body, func(m ast.Node) bool {
+				if sel, ok := m.(*ast.SelectorExpr); ok && sel.Sel.Name == "handlerQueue" {
+					if s := info.Selections[sel]; s != nil && s.Kind() == types.FieldVal {
+						touchesQueue = true
+					}
+				}
+				return true
+			})
+			for _, as := range assigns {
+				n++
+				val := nows(core.ExprStr(as.Rhs[0]))
+				key := core.FuncName(fd) + ":handlerRunning=" + val
+				c.Decide(touchesQueue, "handler-slot", key, as.Pos(), "the slot changes hands in the critical section that inspects the handler queue", core.FuncName(fd)+" sets handlerRunning = "+val+" in a critical section that does not look at the handler queue: between the queue test and this store another goroutine can enqueue a request (or start a handler), so a queued call may never be handled — it is never answered — or two handler goroutines run at once")
+			}
+			return false
+		})
+	}
+	c.Analysed("handler_slot_stores", n)
+	c.Floor("handler-slot", 2)
 }
